@@ -35,7 +35,7 @@ TIERS = {
     "quick": {"hash_seeds": 4, "C10": {"random": 120, "sweep_n": (0,), "typing_all": False},
               "C11": {"runs": 120, "soak": 2}, "C14": {"runs": 220, "soak": 2}, "budget_s": 360, "ref_budget_s": 600},
     "thorough": {"hash_seeds": 32, "C10": {"random": 4000, "sweep_n": (0, 1), "typing_all": True},
-                 "C11": {"runs": 6000, "soak": 60}, "C14": {"runs": 10000, "soak": 60}, "budget_s": 3000, "ref_budget_s": 1800},
+                 "C11": {"runs": 6000, "soak": 60}, "C14": {"runs": 10000, "soak": 60}, "budget_s": 1500, "ref_budget_s": 3000},
 }
 
 
